@@ -868,6 +868,14 @@ func parseTypeSystemDefinition(parser *Parser) (ast.Node, error) {
 	if item, ok = tokenDefinitionFn[keywordToken.Value]; !ok {
 		return nil, unexpected(parser, keywordToken)
 	}
+	if peekDescription(parser) {
+		switch keywordToken.Value {
+		case lexer.QUERY, lexer.MUTATION, lexer.SUBSCRIPTION, lexer.FRAGMENT, lexer.SCHEMA, lexer.EXTEND:
+			// these take no description: the keyword, not the description before
+			// it, is where the text stops being a document
+			return nil, unexpected(parser, keywordToken)
+		}
+	}
 	return item(parser)
 }
 
